@@ -473,6 +473,8 @@ package interpreter
 //@   fails[C21] mval(step) == 0 || (mval(start) < mval(end) && mval(step) < 0) || (mval(start) > mval(end) && mval(step) > 0) => InclusiveRangeConstructionError
 //@   env MemoryMeteringError ComputationMeteringError
 //@   ensures[C21] result != nil
+// the range that is built holds the very start, end and step given
+//@   ensures[C21] called("interpreter.createInclusiveRange#1") && callarg("interpreter.createInclusiveRange#1", 1) == start && callarg("interpreter.createInclusiveRange#1", 2) == end && callarg("interpreter.createInclusiveRange#1", 3) == step
 
 // ---- Fix128 / UFix128 arithmetic (C15, C13, C18): the repository's part is the mapping of the fixed-point library's
 // (value, error) results to Cadence results and failures; the library's contracts are assumed
